@@ -4,6 +4,7 @@ open AnnVerif AnnVerif.Drv AnnVerif.ValSet
 
 structure St where
   cfg : Cfg := repaired
+  keepsProposer : Bool := true
   regs : List (String × ValSet) := []
 
 def getReg (s : St) (r : String) : ValSet :=
@@ -25,7 +26,7 @@ def parseVal (w : String) : Option Val :=
 
 def step (s : St) (line : String) : St × String :=
   match words line with
-  | "cfg" :: rest => ({ s with cfg := ⟨kv rest "iterated" != some "0"⟩ }, "ok")
+  | "cfg" :: rest => ({ s with cfg := ⟨kv rest "iterated" != some "0"⟩, keepsProposer := (kv rest "stateKeepsProposer" != some "0") }, "ok")
   | "new" :: r :: vals =>
     match vals.mapM parseVal with
     | some vals => let vs := newValSet s.cfg vals; (setReg s r vs, dump vs)
@@ -42,7 +43,8 @@ def step (s : St) (line : String) : St × String :=
   | ["total", r] =>
     let (vs, t) := totalVotingPower (getReg s r)
     (setReg s r vs, toString t)
-  | ["reload", r] => let vs := reload (getReg s r); (setReg s r vs, dump vs)
+  | ["reload", r] => let vs := reloadState s.keepsProposer (getReg s r); (setReg s r vs, dump vs)
+  | ["wirereload", r] => let vs := reload (getReg s r); (setReg s r vs, dump vs)
   | ["add", r, v] =>
     match parseVal v with
     | some v => let (vs, ok) := add (getReg s r) v; (setReg s r vs, showBool ok ++ " " ++ dump vs)
